@@ -23,10 +23,26 @@ theorem writeHeadersG_ok {forb code reason h lines}
   · split at hw
     · cases hw
     · rename_i h2
-      injection hw with hw
-      subst hw
-      refine ⟨rfl, ?_⟩
-      simpa using h2
+      split at hw
+      · cases hw
+      · injection hw with hw
+        subst hw
+        refine ⟨rfl, ?_⟩
+        simpa using h2
+
+/-- an accepted `write_headers` call: every header name is a token (the name check) -/
+theorem writeHeadersG_names {forb code reason h lines}
+    (hw : writeHeadersG forb code reason h = .ok lines) : ∀ p ∈ hAll h, isToken p.1 = true := by
+  unfold writeHeadersG at hw
+  simp only at hw
+  split at hw
+  · cases hw
+  · split at hw
+    · cases hw
+    · split at hw
+      · cases hw
+      · rename_i h3
+        simpa using h3
 
 /-! ### the strict reader on a CRLF-joined block -/
 
@@ -99,5 +115,474 @@ theorem hSet_only (h : Headers) (n v w : Str) (hm : (normalize n, w) ∈ hAll (h
       simp [hxe.1]
     · simp at hm
       exact hm
+
+/-! ### `HTTPHeaders.add` keeps what is there and appends the new value -/
+
+theorem hAdd_mem {h h' : Headers} {n v : Str} (hs : hAdd h n v = .ok h') :
+    (normalize n, v) ∈ hAll h' ∧ ∀ q ∈ hAll h, q ∈ hAll h' := by
+  simp only [hAdd] at hs
+  split at hs
+  · cases hs
+  · split at hs
+    · cases hs
+    · split at hs
+      · rename_i hany
+        injection hs with hs
+        subst hs
+        obtain ⟨p, hp, hpe⟩ := List.any_eq_true.mp hany
+        constructor
+        · simp only [hAll, List.mem_flatMap, List.mem_map]
+          exact ⟨(normalize n, p.2 ++ [v]), ⟨p, hp, by simp [hpe]⟩, v, by simp, rfl⟩
+        · intro q hq
+          simp only [hAll, List.mem_flatMap, List.mem_map] at hq ⊢
+          obtain ⟨r, hr, x, hx, rfl⟩ := hq
+          by_cases hre : (r.1 == normalize n) = true
+          · refine ⟨(normalize n, r.2 ++ [v]), ⟨r, hr, by simp [hre]⟩, x, by simp [hx], ?_⟩
+            simp only [beq_iff_eq] at hre
+            simp [hre]
+          · exact ⟨r, ⟨r, hr, by simp [hre]⟩, x, hx, rfl⟩
+      · injection hs with hs
+        subst hs
+        constructor
+        · simp [hAll]
+        · intro q hq
+          simp only [hAll, List.flatMap_append, List.mem_append]
+          exact Or.inl hq
+
+/-! ### header names: tokens stay tokens under `_normalize_header`; a token-named line parses back -/
+
+theorem isTchar_lt {c : Nat} (h : isTchar c = true) : c < 128 := by
+  simp only [isTchar, C25.isAlnum, Bool.or_eq_true, Bool.and_eq_true, decide_eq_true_eq, beq_iff_eq] at h
+  omega
+
+theorem tchar_cap_all : ∀ c < 128, isTchar c = true →
+    (capFirst c).all isTchar = true ∧ isTchar (lowRest c) = true ∧ capFirst c ≠ [] := by decide
+
+theorem capFirst_tchar {c : Nat} (h : isTchar c = true) : ∀ d ∈ capFirst c, isTchar d = true :=
+  fun d hd => List.all_eq_true.mp (tchar_cap_all c (isTchar_lt h) h).1 d hd
+
+theorem lowRest_tchar {c : Nat} (h : isTchar c = true) : isTchar (lowRest c) = true :=
+  (tchar_cap_all c (isTchar_lt h) h).2.1
+
+theorem capitalize_tchar {w : Str} (h : ∀ c ∈ w, isTchar c = true) : ∀ d ∈ capitalize w, isTchar d = true := by
+  cases w with
+  | nil => simp [capitalize]
+  | cons c cs =>
+    intro d hd
+    simp only [capitalize, List.mem_append, List.mem_map] at hd
+    rcases hd with hd | ⟨x, hx, rfl⟩
+    · exact capFirst_tchar (h c (by simp)) d hd
+    · exact lowRest_tchar (h x (by simp [hx]))
+
+theorem splitOn_ne_nil (sep : Nat) (s : Str) : C25.splitOn sep s ≠ [] := by
+  induction s with
+  | nil => simp [C25.splitOn]
+  | cons c cs ih =>
+    simp only [C25.splitOn]
+    split
+    · simp
+    · split <;> simp
+
+theorem splitOn_mem (sep : Nat) (s : Str) : ∀ w ∈ C25.splitOn sep s, ∀ c ∈ w, c ∈ s := by
+  induction s with
+  | nil => simp [C25.splitOn]
+  | cons a as ih =>
+    intro w hw c hc
+    simp only [C25.splitOn] at hw
+    split at hw
+    · simp only [List.mem_cons] at hw
+      rcases hw with rfl | hw
+      · simp at hc
+      · exact List.mem_cons_of_mem _ (ih w hw c hc)
+    · split at hw
+      · simp only [List.mem_cons, List.not_mem_nil, or_false] at hw
+        subst hw
+        simp only [List.mem_cons, List.not_mem_nil, or_false] at hc
+        simp [hc]
+      · rename_i w0 ws heq
+        simp only [List.mem_cons] at hw
+        rcases hw with rfl | hw
+        · simp only [List.mem_cons] at hc
+          rcases hc with rfl | hc
+          · simp
+          · exact List.mem_cons_of_mem _ (ih w0 (by simp [heq]) c hc)
+        · exact List.mem_cons_of_mem _ (ih w (by simp [heq, hw]) c hc)
+
+theorem joinWith_mem (sep : Str) (ws : List Str) : ∀ c ∈ C25.joinWith sep ws, c ∈ sep ∨ ∃ w ∈ ws, c ∈ w := by
+  induction ws with
+  | nil => simp [C25.joinWith]
+  | cons w rest ih =>
+    intro c hc
+    cases rest with
+    | nil =>
+      simp only [C25.joinWith] at hc
+      exact Or.inr ⟨w, by simp, hc⟩
+    | cons w2 rest2 =>
+      simp only [C25.joinWith, List.mem_append] at hc
+      rcases hc with (hc | hc) | hc
+      · exact Or.inr ⟨w, by simp, hc⟩
+      · exact Or.inl hc
+      · rcases ih c hc with h | ⟨x, hx, hcx⟩
+        · exact Or.inl h
+        · exact Or.inr ⟨x, List.mem_cons_of_mem _ hx, hcx⟩
+
+theorem joinWith_ne_nil (sep : Str) (w : Str) (ws : List Str) (h : w ≠ [] ∨ (ws ≠ [] ∧ sep ≠ [])) :
+    C25.joinWith sep (w :: ws) ≠ [] := by
+  cases ws with
+  | nil =>
+    simp only [C25.joinWith]
+    rcases h with h | h
+    · exact h
+    · exact absurd rfl h.1
+  | cons w2 rest =>
+    simp only [C25.joinWith]
+    rcases h with h | h
+    · simp [h]
+    · simp [h.2]
+
+/-- `_normalize_header` maps a token to a token (so `add()`'s `self[norm_name] = value` passes the check of
+`__setitem__`, and every name stored in an `HTTPHeaders` is a token) -/
+theorem isToken_normalize {n : Str} (h : isToken n = true) : isToken (normalize n) = true := by
+  simp only [isToken, Bool.and_eq_true, Bool.not_eq_true', List.isEmpty_eq_false_iff, List.all_eq_true] at h ⊢
+  obtain ⟨hne, hall⟩ := h
+  constructor
+  · cases n with
+    | nil => exact absurd rfl hne
+    | cons c cs =>
+      simp only [normalize, C25.splitOn]
+      split
+      · -- leading `-`: first word empty, at least one more word
+        have : (C25.splitOn 45 cs).map capitalize ≠ [] := by simpa using splitOn_ne_nil 45 cs
+        simp only [List.map_cons]
+        exact joinWith_ne_nil _ _ _ (Or.inr ⟨this, by simp⟩)
+      · split
+        · exact absurd ‹_› (splitOn_ne_nil 45 cs)
+        · simp only [List.map_cons]
+          refine joinWith_ne_nil _ _ _ (Or.inl ?_)
+          simp only [capitalize, ne_eq, List.append_eq_nil_iff, not_and]
+          intro h0
+          exact absurd h0 (tchar_cap_all c (isTchar_lt (hall c (by simp))) (hall c (by simp))).2.2
+  · intro d hd
+    rcases joinWith_mem _ _ d hd with hs | ⟨w, hw, hdw⟩
+    · simp only [List.mem_cons, List.not_mem_nil, or_false] at hs
+      subst hs
+      decide
+    · obtain ⟨w0, hw0, rfl⟩ := List.mem_map.mp hw
+      exact capitalize_tchar (fun c hc => hall c (splitOn_mem 45 n w0 hw0 c hc)) d hdw
+
+theorem splitColon_append (n rest : Str) (h : ∀ c ∈ n, c ≠ 58) :
+    Spec.splitColon (n ++ 58 :: rest) = some (n, rest) := by
+  induction n with
+  | nil => simp [Spec.splitColon]
+  | cons c cs ih =>
+    have hc : c ≠ 58 := h c (by simp)
+    simp [Spec.splitColon, hc, ih (fun x hx => h x (by simp [hx]))]
+
+/-- a line `name: value` whose name is a token is read back by a strict client as exactly that field -/
+theorem parseField_headerLine (p : Str × Str) (h : isToken p.1 = true) :
+    Spec.parseField (headerLine p) = some (p.1, 32 :: p.2) := by
+  have hall : ∀ c ∈ p.1, c ≠ 58 := by
+    intro c hc he
+    subst he
+    simp only [isToken, Bool.and_eq_true, List.all_eq_true] at h
+    exact absurd (h.2 58 hc) (by decide)
+  simp [Spec.parseField, headerLine, splitColon_append p.1 (32 :: p.2) hall, h]
+
+/-! ### names stored through checked entrances (`add`, literal names) are tokens — kept as facts about
+`HTTPHeaders`; the wire theorems rest on the name check of `write_headers` (`writeHeadersG_names`) -/
+
+def NamesOk (h : Headers) : Prop := ∀ p ∈ h, isToken p.1 = true
+
+theorem namesOk_hSet {h : Headers} {n : Str} (v : Str) (hh : NamesOk h) (hn : isToken n = true) :
+    NamesOk (hSet h n v) := by
+  intro p hp
+  simp only [hSet] at hp
+  split at hp
+  · obtain ⟨q, hq, rfl⟩ := List.mem_map.mp hp
+    split
+    · exact isToken_normalize hn
+    · exact hh q hq
+  · simp only [List.mem_append, List.mem_cons, List.not_mem_nil, or_false] at hp
+    rcases hp with hp | rfl
+    · exact hh p hp
+    · exact isToken_normalize hn
+
+theorem namesOk_hAdd {h h' : Headers} {n v : Str} (hh : NamesOk h) (hs : hAdd h n v = .ok h') :
+    NamesOk h' := by
+  simp only [hAdd] at hs
+  split at hs
+  · cases hs
+  · rename_i hn
+    have hn : isToken n = true := by simpa using hn
+    split at hs
+    · cases hs
+    · split at hs
+      · injection hs with hs
+        subst hs
+        intro p hp
+        obtain ⟨q, hq, rfl⟩ := List.mem_map.mp hp
+        split
+        · exact isToken_normalize hn
+        · exact hh q hq
+      · injection hs with hs
+        subst hs
+        intro p hp
+        simp only [List.mem_append, List.mem_cons, List.not_mem_nil, or_false] at hp
+        rcases hp with hp | rfl
+        · exact hh p hp
+        · exact isToken_normalize hn
+
+theorem namesOk_hDel {h : Headers} (n : Str) (hh : NamesOk h) : NamesOk (hDel h n) :=
+  fun p hp => hh p (List.mem_filter.mp hp).1
+
+theorem namesOk_addCookieLines (cs : List Str) {h : Headers} (hh : NamesOk h) : NamesOk (addCookieLines h cs) := by
+  induction cs generalizing h with
+  | nil => exact hh
+  | cons s rest ih =>
+    simp only [addCookieLines]
+    apply ih
+    split
+    · intro p hp
+      obtain ⟨q, hq, rfl⟩ := List.mem_map.mp hp
+      split
+      · show isToken (ofAscii "Set-Cookie") = true
+        decide
+      · exact hh q hq
+    · intro p hp
+      simp only [List.mem_append, List.mem_cons, List.not_mem_nil, or_false] at hp
+      rcases hp with hp | rfl
+      · exact hh p hp
+      · show isToken (ofAscii "Set-Cookie") = true
+        decide
+
+theorem namesOk_finishPrep {st : St} (hh : NamesOk st.headers) : NamesOk (finishPrep st).headers := by
+  simp only [finishPrep]
+  split
+  · exact namesOk_hDel _ (namesOk_hDel _ (namesOk_hDel _ hh))
+  · split
+    · exact hh
+    · exact namesOk_hSet _ hh (by decide)
+
+
+theorem namesOk_initSt (server ctype date : Str) : NamesOk (initSt server ctype date).headers := by
+  simp only [initSt]
+  refine namesOk_hSet _ (namesOk_hSet _ (namesOk_hSet _ ?_ (by decide)) (by decide)) (by decide)
+  intro p hp
+  cases hp
+
+theorem namesOk_hAddAll {h h' : Headers} (hs : List (Str × Str)) (hh : NamesOk h) (hk : hAddAll h hs = .ok h') :
+    NamesOk h' := by
+  induction hs generalizing h with
+  | nil =>
+    simp only [hAddAll] at hk
+    injection hk with hk
+    subst hk
+    exact hh
+  | cons p rest ih =>
+    obtain ⟨n, v⟩ := p
+    simp only [hAddAll] at hk
+    split at hk
+    · rename_i h1 h1k
+      exact ih (namesOk_hAdd hh h1k) hk
+    · cases hk
+
+/-- header lines whose names are tokens are read back field by field -/
+theorem parseFields_lines (l : List (Str × Str)) (hall : ∀ p ∈ l, isToken p.1 = true) :
+    (l.map headerLine).mapM Spec.parseField = some (l.map (fun p => (p.1, 32 :: p.2))) := by
+  induction l with
+  | nil => rfl
+  | cons p ps ih =>
+    have h1 := parseField_headerLine p (hall p (by simp))
+    have h2 := ih (fun q hq => hall q (by simp [hq]))
+    simp only [List.map_cons, List.mapM_cons, h1, h2]
+    rfl
+
+/-! ### first line of defence: every header VALUE a `RequestHandler` stores passed `_VALID_HEADER_CHARS` -/
+
+open TornadoModel.C25 (validHeaderChars isValidHeaderChar) in
+def ValsOk (h : Headers) : Prop := ∀ p ∈ h, ∀ v ∈ p.2, validHeaderChars v = true
+
+open TornadoModel.C25 (validHeaderChars isValidHeaderChar)
+
+theorem decOfNat_valid (n : Nat) : validHeaderChars (C25.decOfNat n) = true := by
+  simp only [validHeaderChars, C25.decOfNat, List.all_eq_true, List.mem_map]
+  rintro c ⟨ch, hch, rfl⟩
+  have hd : ch.isDigit = true := by
+    have : ch ∈ Nat.toDigits 10 n := by
+      have h := @Nat.toList_repr n
+      change ch ∈ (Nat.repr n).toList at hch
+      rwa [h] at hch
+    exact Nat.isDigit_of_mem_toDigits (by decide) (by decide) this
+  simp only [Char.isDigit, Bool.and_eq_true, decide_eq_true_eq] at hd
+  have h1 : 48 ≤ ch.toNat := by have := hd.1; exact UInt32.le_iff_toNat_le.mp this
+  have h2 : ch.toNat ≤ 57 := by have := hd.2; exact UInt32.le_iff_toNat_le.mp this
+  simp only [isValidHeaderChar, Bool.or_eq_true, beq_iff_eq, Bool.and_eq_true, decide_eq_true_eq]
+  omega
+
+theorem decOfInt_valid (i : Int) : validHeaderChars (C25.decOfInt i) = true := by
+  unfold C25.decOfInt
+  split
+  · have := decOfNat_valid i.natAbs
+    simp only [validHeaderChars, List.all_cons, Bool.and_eq_true] at this ⊢
+    exact ⟨by decide, this⟩
+  · exact decOfNat_valid _
+
+theorem convert_valid {v : HVal} {s : Str} (h : convert v = .ok s) : validHeaderChars s = true := by
+  cases v with
+  | str t =>
+    simp only [convert] at h
+    split at h
+    · injection h with h; subst h; assumption
+    · cases h
+  | bytes t =>
+    simp only [convert] at h
+    split at h
+    · injection h with h; subst h; assumption
+    · cases h
+  | int i =>
+    simp only [convert] at h
+    injection h with h
+    subst h
+    exact decOfInt_valid i
+
+theorem valsOk_hSet {h : Headers} (n : Str) {v : Str} (hh : ValsOk h) (hv : validHeaderChars v = true) :
+    ValsOk (hSet h n v) := by
+  intro p hp w hw
+  simp only [hSet] at hp
+  split at hp
+  · obtain ⟨q, hq, rfl⟩ := List.mem_map.mp hp
+    split at hw
+    · simp only [List.mem_cons, List.not_mem_nil, or_false] at hw
+      subst hw
+      exact hv
+    · exact hh q hq w hw
+  · simp only [List.mem_append, List.mem_cons, List.not_mem_nil, or_false] at hp
+    rcases hp with hp | rfl
+    · exact hh p hp w hw
+    · simp only [List.mem_cons, List.not_mem_nil, or_false] at hw
+      subst hw
+      exact hv
+
+/-- appending one value under a name (the dict update shared by `add()` and the cookie loop of `flush`) -/
+theorem valsOk_append {h : Headers} (n : Str) {v : Str} (hh : ValsOk h) (hv : validHeaderChars v = true) :
+    ValsOk (if h.any (·.1 == n) then h.map (fun p => if p.1 == n then (n, p.2 ++ [v]) else p) else h ++ [(n, [v])]) := by
+  intro p hp w hw
+  split at hp
+  · obtain ⟨q, hq, rfl⟩ := List.mem_map.mp hp
+    split at hw
+    · simp only [List.mem_append, List.mem_cons, List.not_mem_nil, or_false] at hw
+      rcases hw with hw | rfl
+      · exact hh q hq w hw
+      · exact hv
+    · exact hh q hq w hw
+  · simp only [List.mem_append, List.mem_cons, List.not_mem_nil, or_false] at hp
+    rcases hp with hp | rfl
+    · exact hh p hp w hw
+    · simp only [List.mem_cons, List.not_mem_nil, or_false] at hw
+      subst hw
+      exact hv
+
+theorem valsOk_hAdd {h h' : Headers} {n v : Str} (hh : ValsOk h) (hv : validHeaderChars v = true)
+    (hs : hAdd h n v = .ok h') : ValsOk h' := by
+  simp only [hAdd] at hs
+  split at hs
+  · cases hs
+  · split at hs
+    · cases hs
+    · have := valsOk_append (normalize n) hh hv
+      split at hs
+      · rename_i hany
+        injection hs with hs
+        subst hs
+        simpa [hany] using this
+      · rename_i hany
+        injection hs with hs
+        subst hs
+        simpa [hany] using this
+
+theorem valsOk_hDel {h : Headers} (n : Str) (hh : ValsOk h) : ValsOk (hDel h n) :=
+  fun p hp => hh p (List.mem_filter.mp hp).1
+
+theorem flushCookies_valid {j : C25.Jar} {cs : List Str} (h : C25.flushCookies j = .ok cs) :
+    ∀ s ∈ cs, validHeaderChars s = true := by
+  induction j generalizing cs with
+  | nil =>
+    simp only [C25.flushCookies] at h
+    injection h with h
+    subst h
+    simp
+  | cons m rest ih =>
+    simp only [C25.flushCookies] at h
+    split at h
+    · cases h
+    · rename_i hv
+      split at h
+      · cases h
+      · split at h
+        · rename_i l hl
+          injection h with h
+          subst h
+          intro s hs
+          simp only [List.mem_cons] at hs
+          rcases hs with rfl | hs
+          · simpa using hv
+          · exact ih hl s hs
+        · cases h
+
+theorem valsOk_addCookieLines {cs : List Str} {h : Headers} (hh : ValsOk h)
+    (hc : ∀ s ∈ cs, validHeaderChars s = true) : ValsOk (addCookieLines h cs) := by
+  induction cs generalizing h with
+  | nil => exact hh
+  | cons s rest ih =>
+    simp only [addCookieLines]
+    exact ih (valsOk_append _ hh (hc s (by simp))) (fun x hx => hc x (by simp [hx]))
+
+theorem valsOk_finishPrep {st : St} (hh : ValsOk st.headers) : ValsOk (finishPrep st).headers := by
+  simp only [finishPrep]
+  split
+  · exact valsOk_hDel _ (valsOk_hDel _ (valsOk_hDel _ hh))
+  · split
+    · exact hh
+    · exact valsOk_hSet _ hh (by decide)
+
+theorem valsOk_setHeader {st : St} (n : Str) (v : HVal) (hh : ValsOk st.headers) :
+    ValsOk (setHeader st n v).1.headers := by
+  simp only [setHeader]
+  split
+  · rename_i s hs
+    exact valsOk_hSet n hh (convert_valid hs)
+  · exact hh
+
+theorem valsOk_step {st : St} (op : Op) (hh : ValsOk st.headers) : ValsOk (step st op).1.headers := by
+  cases op with
+  | setHeader n v => exact valsOk_setHeader n v hh
+  | addHeader n v =>
+    simp only [step, addHeader]
+    split
+    · exact hh
+    · rename_i s hs
+      split
+      · rename_i h' hk
+        exact valsOk_hAdd hh (convert_valid hs) hk
+      · exact hh
+  | clearHeader n => exact valsOk_hDel n hh
+  | setStatus c r => exact hh
+  | setCookie a => exact hh
+  | redirect url perm =>
+    simp only [step]
+    split
+    · exact hh
+    · exact valsOk_setHeader (st := setStatus st (if perm then 301 else 302) none) _ _ hh
+
+theorem valsOk_run {st : St} (ops : List Op) (hh : ValsOk st.headers) : ValsOk (run st ops).1.headers := by
+  induction ops generalizing st with
+  | nil => exact hh
+  | cons op rest ih => exact ih (valsOk_step op hh)
+
+theorem valid_no_ctl {s : Str} (h : validHeaderChars s = true) : ∀ c ∈ s, c ≠ 13 ∧ c ≠ 10 ∧ c ≠ 0 := by
+  intro c hc
+  have := List.all_eq_true.mp h c hc
+  simp only [isValidHeaderChar, Bool.or_eq_true, beq_iff_eq, Bool.and_eq_true, decide_eq_true_eq] at this
+  omega
 
 end TornadoModel.C07
